@@ -109,7 +109,9 @@ def main(tier, seed):
     results = run_configs(run_config, configs(tier), tier, seed)
     cov = aggregate(results)
     cov["rule"] = ("1-4 initiators x arbiter feature subsets x initiator feature policies (same/all/minimal/mixed) x "
-                   "granularity ratios 1-8; full BFS; letters = all (cyc,stb,lock) per initiator x 6 token phases x all target responses")
+                   "granularity ratios 1-8, plus 5-6 (thorough: 5-8) initiators with a reduced alphabet, a second elaboration, Feature-enum "
+                   "arguments and a refused add() in the middle; full BFS; letters = all (cyc,stb,lock) per initiator x 2+2*log2(N) token "
+                   "phases x all target responses (many-initiator configurations: one token phase per control letter, see the module)")
     return finish(PID, tier, seed, "model_checking", cov, ASSUMPTIONS, t0, results, min_explored=int(0.9 * len(results)))
 
 
